@@ -64,6 +64,10 @@ def run(ctx):
     # source file shrinks / vanishes after the scan; output path obstructed
     for tr in ("netsim", "mock"):
         cases.append(base(f"shrink-{tr}", transport=tr, shrink="a.bin", _kind="shrink"))
+        # a.bin is 3*chunk-5 bytes: cut off 1 byte, part of the last chunk, exactly the last chunk, a chunk and a bit, everything
+        for by in (1, 7, chunk - 6, chunk - 5, chunk - 4, chunk + 3, 2 * chunk, 3 * chunk):
+            cases.append(base(f"shrink-by-{by}-{tr}", transport=tr, shrink="a.bin", shrink_by=by, _kind="shrink"))
+            cases.append(base(f"shrink-by-{by}-{tr}-1stream", transport=tr, streams=1, resume=False, shrink="d/b.bin", shrink_by=by, _kind="shrink"))
         cases.append(base(f"vanish-{tr}", transport=tr, vanish="d/b.bin", _kind="vanish"))
         cases.append(base(f"obstruct-file-{tr}", transport=tr, obstruct="a.bin", _kind="obstruct"))
         cases.append(base(f"obstruct-dir-{tr}", transport=tr, files=[{"p": "d", "n": 10, "s": 1}, {"p": "e.bin", "n": 40, "s": 2}], obstruct="d/sub", _kind="obstruct"))
